@@ -710,3 +710,58 @@ Proof.
     change (set_slice "ret" (TU 16) z s) with {| ints := []; slices := [("data", (TU 8, map Z.of_N d)); ("ret", (TU 16, z))] |} end.
   rewrite HL. cbn. f_equal. apply pairsBE_model, Hok.
 Qed.
+
+(* ---------- statements about the printed functions alone ----------
+   what one printed function returns, fed to the printed function of the other direction, gives the input back:
+   the model has dropped out of the statement *)
+Lemma u32_to_regs_ok swap us : Forall u32_ok us -> Forall u16_ok (u32_to_regs swap us).
+Proof.
+  induction 1 as [|u us Hu _ IH]; [constructor|]. unfold u32_to_regs in *. cbn [flat_map]. apply Forall_app. split; [|exact IH].
+  rewrite u32_two_regs by exact Hu. unfold u32_ok in Hu. unfold u16_ok.
+  destruct swap; repeat constructor.
+  all: try (apply N.mod_lt; discriminate).
+  all: apply N.div_lt_upper_bound; [discriminate|exact Hu].
+Qed.
+
+Definition len_ok2 {A} (l : list A) : Prop := Z.of_nat (List.length l) < 2 ^ 60.
+
+Lemma len_ok_regs swap us : len_ok2 us -> len_ok (u32_to_regs swap us) /\ len_ok us.
+Proof. unfold len_ok2, len_ok. rewrite u32_to_regs_length. intros H. split; lia. Qed.
+
+Theorem printed_uint32_inverse us : Forall u32_ok us -> len_ok2 us ->
+  (exists rs, srun go_modbus_Uint32ToRegs [map Z.of_N us] = Some rs /\ srun go_modbus_RegsToUint32 [rs] = Some (map Z.of_N us)) /\
+  (exists rs, srun go_modbus_Uint32ToRegsSwapRegs [map Z.of_N us] = Some rs /\ srun go_modbus_RegsToUint32SwapWords [rs] = Some (map Z.of_N us)) /\
+  (exists rs, srun go_modbus_Float32ToRegs [map Z.of_N us] = Some rs /\ srun go_modbus_RegsToFloat32 [rs] = Some (map Z.of_N us)) /\
+  (exists rs, srun go_modbus_Float32ToRegsSwapWords [map Z.of_N us] = Some rs /\ srun go_modbus_RegsToFloat32SwapWords [rs] = Some (map Z.of_N us)).
+Proof.
+  intros Hok Hlen.
+  destruct (len_ok_regs false us Hlen) as [Hl1 Hl0]. destruct (len_ok_regs true us Hlen) as [Hl2 _].
+  pose proof (u32_to_regs_ok false us Hok) as Hr1. pose proof (u32_to_regs_ok true us Hok) as Hr2.
+  repeat split.
+  - exists (map Z.of_N (Uint32ToRegs us)). split; [exact (go_Uint32ToRegs_is_model us Hok Hl0)|].
+    unfold Uint32ToRegs. rewrite (go_RegsToUint32_is_model _ Hr1 Hl1). unfold RegsToUint32. now rewrite regs_of_u32.
+  - exists (map Z.of_N (Uint32ToRegsSwapRegs us)). split; [exact (go_Uint32ToRegsSwapRegs_is_model us Hok Hl0)|].
+    unfold Uint32ToRegsSwapRegs. rewrite (go_RegsToUint32SwapWords_is_model _ Hr2 Hl2). unfold RegsToUint32SwapWords. now rewrite regs_of_u32.
+  - exists (map Z.of_N (Float32ToRegs us)). split; [exact (go_Float32ToRegs_is_model us Hok Hl0)|].
+    unfold Float32ToRegs. rewrite (go_RegsToFloat32_is_model _ Hr1 Hl1). unfold RegsToFloat32. now rewrite regs_of_u32.
+  - exists (map Z.of_N (Float32ToRegsSwapWords us)). split; [exact (go_Float32ToRegsSwapWords_is_model us Hok Hl0)|].
+    unfold Float32ToRegsSwapWords. rewrite (go_RegsToFloat32SwapWords_is_model _ Hr2 Hl2). unfold RegsToFloat32SwapWords. now rewrite regs_of_u32.
+Qed.
+
+Theorem printed_int32_inverse zs : Forall i32_ok zs -> len_ok2 zs ->
+  (exists rs, srun go_modbus_Int32ToRegs [zs] = Some rs /\ srun go_modbus_RegsToInt32 [rs] = Some zs) /\
+  (exists rs, srun go_modbus_Int32ToRegsSwapWords [zs] = Some rs /\ srun go_modbus_RegsToInt32SwapWords [rs] = Some zs).
+Proof.
+  intros Hok Hlen.
+  assert (Hu : Forall u32_ok (map of_int32 zs)) by (apply Forall_map, Forall_forall; intros z _; apply of_int32_ok).
+  assert (Hlen' : len_ok2 (map of_int32 zs)) by (unfold len_ok2; now rewrite map_length).
+  destruct (len_ok_regs false _ Hlen') as [Hl1 _]. destruct (len_ok_regs true _ Hlen') as [Hl2 _].
+  assert (Hl0 : len_ok zs) by (unfold len_ok2, len_ok in *; lia).
+  split.
+  - exists (map Z.of_N (Int32ToRegs zs)). split; [exact (go_Int32ToRegs_is_model zs Hok Hl0)|].
+    unfold Int32ToRegs. rewrite (go_RegsToInt32_is_model _ (u32_to_regs_ok false _ Hu) Hl1). f_equal.
+    exact (proj1 (int32_inverse false) zs Hok).
+  - exists (map Z.of_N (Int32ToRegsSwapWords zs)). split; [exact (go_Int32ToRegsSwapWords_is_model zs Hok Hl0)|].
+    unfold Int32ToRegsSwapWords. rewrite (go_RegsToInt32SwapWords_is_model _ (u32_to_regs_ok true _ Hu) Hl2). f_equal.
+    exact (proj1 (int32_inverse true) zs Hok).
+Qed.
